@@ -57,6 +57,7 @@ def labels_agree(wl: str, rl: str) -> bool:
 
 def run(chk: Check) -> None:
     run_short_forms(chk, get_index())
+    run_json_conversions(chk, get_index())
     _run(chk)
 
 
@@ -820,3 +821,55 @@ def run_short_forms(chk: Check, ix) -> None:
                     r.violation(key, w.loc(st), f"the short form omits {missing} but its condition `{norm(st.test)[:80]}` does not look at {'it' if len(missing) == 1 else 'them'}: a {cn} with {missing[0]} set is written without it and comes back from the binary cache with the field empty (the JSON format keeps it)")
     if n < 1:
         raise AnalysisError("no writer with a short form found (expected mypy.types.Instance.write)")
+
+
+def run_json_conversions(chk: Check, ix, rid: str = "R11.13", only: tuple[str, ...] | None = None, floor: int = 5) -> None:
+    """R11.13: a conversion that serialize() applies to make a value JSON-representable is undone by deserialize()."""
+    r = chk.rule(rid, "JSON format: where serialize() converts a value to make it representable (`str(k)` for a non-string dict key, `.hex()` for bytes), deserialize() applies the inverse to the same key (`int(k)`, `bytes.fromhex(..)`): otherwise the reloaded object holds values of another type (string line numbers never match integer ones)", floor=floor)
+    n = 0
+    for mn in ("mypy.cache", "mypy.nodes", "mypy.types", "mypy.build"):
+        if mn not in ix.modules:
+            continue
+        m = ix.module(mn)
+        for cn, c in sorted(m.classes.items()):
+            ser, de = c.methods.get("serialize"), c.methods.get("deserialize")
+            if ser is None or de is None or (only is not None and cn not in only):
+                continue
+            dicts = [d for d in ast.walk(ser.node) if isinstance(d, ast.Dict)]
+            for d in dicts:
+                for k, v in zip(d.keys, d.values):
+                    if not (isinstance(k, ast.Constant) and isinstance(k.value, str)):
+                        continue
+                    conv = None
+                    if isinstance(v, ast.DictComp) and isinstance(v.key, ast.Call) and call_name(v.key) == "str":
+                        conv = ("str(key)", "int")
+                    elif isinstance(v, ast.Call) and isinstance(v.func, ast.Attribute) and v.func.attr == "hex" and not v.args:
+                        conv = (".hex()", "fromhex")
+                    elif isinstance(v, ast.ListComp) and isinstance(v.elt, ast.Call) and isinstance(v.elt.func, ast.Attribute) and v.elt.func.attr == "hex":
+                        conv = ("[x.hex() ...]", "fromhex")
+                    if conv is None:
+                        continue
+                    n += 1
+                    # the expression in deserialize that reads data[<k>]
+                    reads = [x for x in ast.walk(de.node) if isinstance(x, ast.Subscript) and isinstance(x.slice, ast.Constant) and x.slice.value == k.value]
+                    par = c.module.parents()
+                    ok = False
+                    for rd in reads:
+                        p_ = par.get(rd)
+                        hops = 0
+                        while p_ is not None and hops < 6 and not isinstance(p_, (ast.keyword, ast.Assign, ast.Return, ast.stmt)):
+                            if isinstance(p_, ast.Call) and call_name(p_) == conv[1]:
+                                ok = True
+                            if isinstance(p_, ast.DictComp) and isinstance(p_.key, ast.Call) and call_name(p_.key) == conv[1]:
+                                ok = True
+                            if isinstance(p_, ast.ListComp) and isinstance(p_.elt, ast.Call) and call_name(p_.elt) == conv[1]:
+                                ok = True
+                            p_ = par.get(p_)
+                            hops += 1
+                    key = f"{c.qualname}: JSON key '{k.value}' written with {conv[0]} is read back with {conv[1]}(...)"
+                    if ok:
+                        r.ok(key, de.loc())
+                    else:
+                        r.violation(key, de.loc(), f"serialize() stores '{k.value}' through {conv[0]} but deserialize() does not apply {conv[1]}: after a reload from the JSON cache the field holds {'string keys' if conv[1] == 'int' else 'hex strings'} where the rest of mypy (and the binary format) uses {'ints' if conv[1] == 'int' else 'bytes'}, so lookups/comparisons against fresh values silently fail")
+    if n < floor:
+        raise AnalysisError(f"only {n} converted JSON fields found")
